@@ -31,7 +31,17 @@ def select(ctx, cases):
         k, n, none = c["kind"], c["n"], c["child"] == "none"
         boundary = k in ("fault", "sys", "badexec") or (k == "ext" and n in (9, 15, 5)) \
             or (k == "raise" and n in (5, 9, 24, 25, 31)) or (k == "exit" and n in (0, 1, 255))
-        if c.get("core") == 1:
+        if c.get("cancel", "none") != "none":
+            # the caller cancels around the program's end: deterministic (sync-after container) and racing
+            if not ctx.quick():
+                ess.append(c)
+            elif c["cancel"] == "afterend" and (k, n) in (("exit", 0), ("exit", 3), ("raise", 11), ("raise", 25), ("raise", 15), ("fault", 11)):
+                ess.append(c)
+            elif c["cancel"] == "race" and c["rep"] <= 2 and (k, n) in (("exit", 3), ("fault", 11)):
+                ess.append(c)
+            else:
+                rest.append(c)
+        elif c.get("core") == 1:
             # core dumps enabled: the hardware faults, the seccomp kill, abort and the CPU limit signal on
             # every runner in the quick tier, all ten core-dumping signals (and an orphan) in the thorough one
             if not ctx.quick() or (none and (k in ("fault", "sys") or n in (6, 24))):
@@ -81,7 +91,8 @@ def run(ctx):
     ctx.cov["mc_states"] = r.distinct
     if ctx.replay and ctx.replay.get("case"):
         c = ctx.replay["case"]
-        ess, rest = [dict((k, c.get(k, 0)) for k in ("runner", "kind", "n", "child", "cn", "core"))], []
+        ess, rest = [dict((k, c.get(k, 0)) for k in ("runner", "kind", "n", "child", "cn", "core", "cancel", "rep"))], []
+        ess[0]["cancel"] = ess[0]["cancel"] or "none"
     else:
         ess, rest = select(ctx, ctx.read_ndjson(os.path.join(r.dir, "cases.ndjson")))
     # 3. real runs
@@ -109,7 +120,7 @@ def run(ctx):
     for b in bad:
         o = obs[b["i"] - 1]
         if b["j"] == "viol":
-            key = "%s:%s:%s:%s%s" % (o["runner"], o["kind"], o["n"], b["why"], ":core" if o.get("core") == 1 else "")
+            key = "%s:%s:%s:%s%s" % (o["runner"], o["kind"], o["n"], b["why"], (":core" if o.get("core") == 1 else "") + (":cancel-" + o["cancel"] if o.get("cancel", "none") != "none" else ""))
             ctx.violation(key, "%s; expected %s, runner reported status=%s exit=%s err=%r (child=%s)" % (
                 b["why"], json.dumps(b["exp"]), o["status"], o["exit"], o["err"][:80], o["child"]), o)
         elif b["j"] == "drift":
@@ -132,6 +143,10 @@ def run(ctx):
     ctx.cov["ended_with_core_dump_enabled"] = len(core_runs)
     ctx.cov["core_dump_witnessed"] = sum(1 for o in core_runs if any(l["t"] == "corewit" and l["v"] == 1 for l in o["report"]))
     ctx.cov["core_cases_vacuous_no_dump_here"] = vacuous
+    canc = [o for o in obs if o.get("cancel", "none") != "none"]
+    ctx.cov["cancelled_around_the_end"] = len(canc)
+    ctx.cov["cancelled_after_program_was_gone"] = sum(1 for o in canc if o["endedfirst"])
+    ctx.cov["cancel_race_won_by_kill"] = sum(1 for o in canc if o["cancel"] == "race" and o["status"] == 2 and o["exit"] == 9)
     if vacuous:
         ctx.note("%d core-dump cases are vacuous: the kernel produced no dump for the witness child (core_pattern / RLIMIT_CORE of this host)" % vacuous)
     ctx.cov["executed_by_runner"] = dict((r_, sum(1 for o in obs if o["runner"] == r_)) for r_ in RUNNERS)
@@ -145,6 +160,7 @@ def run(ctx):
         "under ptrace the delivery of SIGXCPU/SIGXFSZ to a *child* ends the run with TLE/OLE: treated as deliberate, judged at the implementation layer only",
         "exit value is judged for Normal / Nonzero Exit Status / Signalled; for TLE/OLE/Disallowed Syscall only the class is pinned by the table",
         "external signals are not sent in sync-after mode (the host never learns the program's pid there)",
+        "cancel dimension: afterend = sync-after container, the sync function cancels once the program is a zombie child of the container init in /proc (endedfirst, judged strictly); otherwise the result must be the program's own end or TLE with SIGKILL (the cancellation's kill)",
         "core dimension: RLIMIT_CORE soft > 0 via the runner's RLimits and a writable work dir; whether a dump is produced is witnessed by a child of the probe dying of SIGSEGV just before (WCOREDUMP seen by its parent); the main process is assumed to dump like it",
     ]
     if not ctx.violations and not ctx.known_hits:
